@@ -171,6 +171,22 @@ pub fn run_range(scratch: &Path, out: &mut Out, tier: &str, seed: u64) {
                 out.emit(&line);
             }
         }
+        // "get_reader streams all L bytes" - also when the key is overwritten or removed (its blob reclaimed) between the
+        // call and the reading
+        let rdr = cas.get_reader(&key);
+        if ki % 2 == 0 {
+            let mut tx = cas.put(key).unwrap();
+            tx.write(b"something else").unwrap();
+            tx.finish().unwrap();
+        } else {
+            cas.remove(&key).unwrap();
+        }
+        let mut v = vec![];
+        let rd_ok = match rdr {
+            Ok(Some(mut r)) => r.read_to_end(&mut v).is_ok() && v == content,
+            _ => false,
+        };
+        out.emit(&json!({"ev": "blobsize", "L": l, "size": l, "rdlen": v.len(), "rd_ok": rd_ok, "get_ok": true, "after": if ki % 2 == 0 { "overwrite" } else { "remove" }}));
         // an absent key
         let r = cas.get_range(&9999u32, 0, 10);
         out.emit(&json!({"ev": "range_absent", "ok": matches!(r, Ok(None)), "size_absent": matches!(cas.get_size(&9999u32), Ok(None))}));
@@ -279,6 +295,54 @@ pub fn run_blob(scratch: &Path, out: &mut Out, tier: &str, seed: u64) {
             "hash_ok": item.blob_hash.as_bytes() == expect.as_bytes(), "size": item.blob_size,
             "file_ok": std::fs::read(&file).ok().is_some_and(|b| b == content)}));
         cas.remove(&key).unwrap();
+    }
+    // the identity of a blob depends only on its bytes - not on what the handle did before or is doing meanwhile: an abandoned
+    // transaction (bytes written, never committed) on the same or another key, a key that already holds a content of another
+    // length (the recorded size follows the overwrite), another transaction open during the commit
+    for round in 0..(if tier == "quick" { 24usize } else { 240 }) {
+        let len = [0usize, 1, 5000, 8192, 70_000, 300][round % 6] + round;
+        let content: Vec<u8> = (0..len).map(|_| rnd(&mut s) as u8).collect();
+        let expect = blake3::hash(&content);
+        key += 1;
+        match round % 4 {
+            0 => {
+                let mut t = cas.put(key).unwrap();
+                t.write(&content[..len / 2]).unwrap();
+                t.write(b"never committed").unwrap();
+                drop(t);
+            }
+            1 => {
+                let mut t = cas.put(key).unwrap();
+                t.write(&vec![7u8; len / 3 + 11 + round]).unwrap();
+                t.finish().unwrap();
+            }
+            2 => {
+                let mut t = cas.put(key + 5_000_000).unwrap();
+                t.write(&vec![9u8; 10_000]).unwrap();
+                drop(t);
+            }
+            _ => {}
+        }
+        let other = if round % 4 == 3 {
+            let mut t = cas.put(key + 6_000_000).unwrap();
+            t.write(b"open while the other one commits").unwrap();
+            Some(t)
+        } else {
+            None
+        };
+        let mut tx = cas.put(key).unwrap();
+        tx.write(&content[..len / 3]).unwrap();
+        tx.write(&content[len / 3..]).unwrap();
+        let fin = tx.finish();
+        drop(other);
+        let item = cas.read_index_state().get_item(&key);
+        let hx: String = expect.as_bytes().iter().map(|b| format!("{b:02x}")).collect();
+        let file = root.join("cas").join(&hx[0..2]).join(&hx[2..4]).join(&hx[4..]);
+        out.emit(&json!({"ev": "blobr", "len": len, "nchunks": 2, "prelude": round % 4,
+            "hash_ok": fin.is_ok() && item.is_some_and(|it| it.blob_hash.as_bytes() == expect.as_bytes()),
+            "size": item.map_or(0, |it| it.blob_size),
+            "file_ok": std::fs::read(&file).ok().is_some_and(|b| b == content)}));
+        let _ = cas.remove(&key);
     }
     // a ladder of lengths around every power of two up to 4 MiB (thresholds of "large blob" fast paths), each written
     // whole, as small-then-large, as large-then-small and in 64 KiB pieces
